@@ -156,6 +156,7 @@ reg(
         only_cfgs(_lazy("tables", "rule_block_popcount_lanes"), ["cli"]),
         _lazy("tables", "rule_popcount_portable_units"),
         only_cfgs(_lazy("structrules", "rule_tailmask", scope=r"^bits::", floor=1), ["cli"]),
+        only_cfgs(_lazy("structrules", "rule_rank_layout"), ["cli"]),
         only_cfgs(_lazy("structrules", "rule_sampleidx", floor=9), ["cli"]),
         _lazy("bvtab", "rule_bitvec_tiered"),
         T1_ALL,
